@@ -58,6 +58,8 @@ EXTRA = {
     "ctor.http": lambda Y, t: Y.URL("http://" + t),
     "ctor.netloc": lambda Y, t: Y.URL("//" + t),
     "without_query_params": lambda Y, t: Y.URL("http://h/p?a=1&b=2").without_query_params(t),
+    "without_query_params.multi": lambda Y, t: (Y.URL("http://h/p?a=1&b=2&a=3").without_query_params("a", t), Y.URL("http://h/p?a=1&b=2").without_query_params(t, "b", t),
+                                                Y.URL("http://h/p?a=1").without_query_params("a", "a"), Y.URL("http://h/p?a=1&b=2").without_query_params())[0],
     "with_name.rel": lambda Y, t: Y.URL("a/b").with_name(t),
     "with_suffix.raw": lambda Y, t: Y.URL("http://h/a.b").with_suffix(t),
     "joinpath.multi": lambda Y, t: Y.URL("http://h/a").joinpath(t, t),
@@ -76,7 +78,7 @@ EXTRA = {
 }
 ALL_ENTRIES = entry.NAMES + sorted(EXTRA)
 AUTO_STRINGIFY = {e.name for e in entry.E if e.kind in ("quote", "qstring", "other", "host") or e.name.startswith("join")} | \
-    {"build.authority", "build.scheme", "with_scheme", "without_query_params", "with_name.rel", "with_suffix.raw", "joinpath.multi", "build.host+path", "build.authority+path",
+    {"build.authority", "build.scheme", "with_scheme", "without_query_params", "without_query_params.multi", "with_name.rel", "with_suffix.raw", "joinpath.multi", "build.host+path", "build.authority+path",
      "build.path-only", "build.scheme+path", "build.host+port", "build.all", "with_path.noslash", "with_path.rel.noslash", "div.empty-base", "div.rel-base"}
 
 
